@@ -111,7 +111,8 @@ def status_of(tok):
     if v == "N":
         return 204
     if v[0] == "R":
-        return int(v.split(",")[1])
+        # a Declined response is the silent return, as for an endpoint
+        return "silent" if v[1] == "d" else int(v.split(",")[1])
     return None
 
 
@@ -127,7 +128,7 @@ def oracle(case):
     trace, outcome, _ = W.run_case(case)
     if outcome[0] == "escaped":
         return [Violation("c04-escaped", case, "unhandled exception %r instead of a 500 page" % (outcome[1],))]
-    status = None if outcome[0] == "silent" else int(outcome[1][0][0][:3])
+    status = "silent" if outcome[0] == "silent" else int(outcome[1][0][0][:3])
     body = b"" if outcome[0] == "silent" else W.canon_body(b"".join(outcome[2])) or b"".join(outcome[2])
     bad = None
     if e.startswith("ab~"):
